@@ -74,6 +74,8 @@ func main() {
 	}
 
 	// String / Parse round trip and fields
+	reusedText := gocql.UUID{0xff, 0xff, 0xff, 0xff, 0xff, 0xff, 0xff, 0xff, 0xff, 0xff, 0xff, 0xff, 0xff, 0xff, 0xff, 0xff}
+	reusedJSON := reusedText
 	for i := 0; i < n; i++ {
 		u := randUUID()
 		if i == 0 {
@@ -87,6 +89,18 @@ func main() {
 			o.Violate(idx, "parse-print-roundtrip", "", fmt.Sprintf("ParseUUID(%q) = %v, %v; want %v", s, p, err, u), nil)
 		}
 		o.Case("fields", i != 0, fieldsCase(u))
+		// the text and JSON forms are the same print/parse pair; the destination is reused from one
+		// iteration to the next (a decoder loop), so the result must not depend on what it held
+		if txt, e := u.MarshalText(); e != nil || string(txt) != s {
+			o.Violate(idx, "marshaltext-differs-from-string", "", fmt.Sprintf("MarshalText(%v) = %q, %v; String = %q", u, txt, e, s), nil)
+		} else if e := reusedText.UnmarshalText(txt); e != nil || reusedText != u {
+			o.Violate(idx, "text-roundtrip-into-reused-destination", "", fmt.Sprintf("UnmarshalText(%q) into a UUID holding an earlier value = %v, %v; want %v", txt, reusedText, e, u), nil)
+		}
+		if js, e := u.MarshalJSON(); e != nil || string(js) != `"`+s+`"` {
+			o.Violate(idx, "marshaljson-differs-from-string", "", fmt.Sprintf("MarshalJSON(%v) = %q, %v; String = %q", u, js, e, s), nil)
+		} else if e := reusedJSON.UnmarshalJSON(js); e != nil || reusedJSON != u {
+			o.Violate(idx, "json-roundtrip-into-reused-destination", "", fmt.Sprintf("UnmarshalJSON(%q) into a UUID holding an earlier value = %v, %v; want %v", js, reusedJSON, e, u), nil)
+		}
 	}
 
 	// strings from a grammar
